@@ -173,13 +173,23 @@ def it_sparse_shared(c):
 def it_prio(c):
     n, w = c['n'], c['w']
     sels = [I(1, 's%d' % i) for i in range(n)]
-    vals = [I(w, 'v%d' % i) for i in range(n)]
+    # 'pat': which value wire sits at each priority (the same wire / an equal constant may be listed several times)
+    pat = c.get('pat') or list(range(n))
+    pool = {}
+    for k in sorted(set(pat)):
+        pool[k] = pyrtl.Const(2, bitwidth=w) if (c.get('consts') and k == 0) else I(w, 'v%d' % k)
+    vals = [pool[k] for k in pat]
+    if c.get('consts'):
+        vals = [pyrtl.Const(2, bitwidth=w) if k == 0 else x for k, x in zip(pat, vals)]     # equal-valued but distinct Const objects
     r = muxes.prioritized_mux(sels, vals)
 
+    def val(ins, k):
+        return 2 if (c.get('consts') and k == 0) else ins['v%d' % k]
+
     def orc(ins):
-        acc = ins['v%d' % (n - 1)]
+        acc = val(ins, pat[n - 1])
         for i in range(n - 2, -1, -1):
-            acc = ite(ins['s%d' % i] == 1, ins['v%d' % i], acc)
+            acc = ite(ins['s%d' % i] == 1, val(ins, pat[i]), acc)
         return {'r': acc}
     return {'outs': {'r': r}, 'widths': {'r': w}, 'oracle': orc}
 
@@ -405,13 +415,14 @@ def _schemas():
     Word = pyrtl.wire_matrix(component_schema=3, size=4)
     Arr2 = pyrtl.wire_matrix(component_schema=Word, size=2)
     BMat = pyrtl.wire_matrix(component_schema=Odd, size=3)
+    Deep = pyrtl.wire_matrix(component_schema=Arr2, size=2)
 
     @pyrtl.wire_struct
     class Line:
         address: Word
         valid: 1
         data: BMat
-    return {'Byte': Byte, 'Odd': Odd, 'Pixel': Pixel, 'Word': Word, 'Arr2': Arr2, 'BMat': BMat, 'Line': Line}
+    return {'Byte': Byte, 'Odd': Odd, 'Pixel': Pixel, 'Word': Word, 'Arr2': Arr2, 'BMat': BMat, 'Line': Line, 'Deep': Deep}
 
 
 # layout: name -> ('struct', [(field, sub)]) | ('matrix', sub, size) | int
@@ -423,6 +434,7 @@ LAYOUT = {
     'Arr2': ('matrix', 'Word', 2),
     'BMat': ('matrix', 'Odd', 3),
     'Line': ('struct', [('address', 'Word'), ('valid', 1), ('data', 'BMat')]),
+    'Deep': ('matrix', 'Arr2', 2),
 }
 
 
@@ -475,6 +487,18 @@ def it_struct(c):
         l = LAYOUT[t]
         comps = l[1] if l[0] == 'struct' else [(i, l[1]) for i in range(l[2])]
         drivers = [I(_width(sub), 'c%d' % i) for i, (name, sub) in enumerate(comps)]
+        if mode == 'wrapped':
+            # every component is driven by an instance of an UNRELATED wrapped type of the same total width (for a matrix
+            # component: same size and component width, but flat elements): the component keeps its declared structure
+            wrapped = []
+            for i, (name, sub) in enumerate(comps):
+                w_ = _width(sub)
+                if not isinstance(sub, int) and LAYOUT[sub][0] == 'matrix':
+                    Drv = pyrtl.wire_matrix(component_schema=_width(LAYOUT[sub][1]), size=LAYOUT[sub][2])
+                else:
+                    Drv = pyrtl.wire_matrix(component_schema=w_, size=1)
+                wrapped.append(Drv(values=[drivers[i]]))
+            drivers_w = wrapped
         if mode in ('ints', 'mixed'):
             # components given as Python ints (negative ones are two's complement at the component's width); 'mixed': every
             # other component stays a wire
@@ -486,10 +510,11 @@ def it_struct(c):
                 if mode == 'ints' or i % 2 == pick % 2:
                     consts[i] = choices[(pick + i) % len(choices)]
             drivers = [consts.get(i, d) for i, d in enumerate(drivers)]
+        dv_ = drivers_w if mode == 'wrapped' else drivers
         if is_matrix:
-            obj = cls(values=drivers)
+            obj = cls(values=dv_)
         else:
-            obj = cls(**{name: d for (name, sub), d in zip(comps, drivers)})
+            obj = cls(**{name: d for (name, sub), d in zip(comps, dv_)})
 
         def whole(ins):
             v = 0
@@ -552,6 +577,11 @@ def cases(tier, seed):
                         out.append({'item': 'sparse', 'sw': sw, 'w': 2, 'idx': list(idx), 'default': d, 'reuse': 2})
     for n in range(1, 7 if tier == 'quick' else 10):
         out.append({'item': 'prio', 'n': n, 'w': 2})
+    for pat in itertools.product(range(3), repeat=4):
+        if len(set(pat)) < 4:
+            out.append({'item': 'prio', 'n': 4, 'w': 2, 'pat': list(pat)})
+    for pat in ([0, 1, 0], [0, 1, 0, 1, 0], [1, 0, 2, 0]):
+        out.append({'item': 'prio', 'n': len(pat), 'w': 2, 'pat': pat, 'consts': True})
     for opts in ([0], [1, 2], [0, 3], [0, 1, 2, 3], [5], [1, 6, 7]):
         out.append({'item': 'multisel', 'sw': 3 if max(opts) > 3 else 2, 'w': 2, 'opts': opts, 'default': False})
         for dpos in range(len(opts) + 1):
@@ -610,7 +640,7 @@ def cases(tier, seed):
         for ws in range(1, 6):
             out.append({'item': 'barrel', 'wa': w, 'ws': ws})
     for t in LAYOUT:
-        for mode in ('whole', 'parts'):
+        for mode in ('whole', 'parts', 'wrapped'):
             out.append({'item': 'struct', 'schema': t, 'mode': mode})
         for vi in range(5):
             out.append({'item': 'struct', 'schema': t, 'mode': 'ints', 'vi': vi})
